@@ -152,6 +152,87 @@ theorem modes_restored (hp : Paired ad) (w h : Int) (t0 : Bytes) (s0 : List Byte
       · simp_all
       · rfl
 
+/-! ### Resume re-applies exactly what the application last requested -/
+
+/-- what the application has asked for after a history — written from the API's contract, not from the model's state -/
+def reqStep (q : ModeReq) : MOp → ModeReq
+  | .enableMouse f => { q with mouseFlags := f }
+  | .disableMouse => { q with mouseFlags := 0 }
+  | .enablePaste => { q with paste := true }
+  | .disablePaste => { q with paste := false }
+  | .enableFocus => { q with focus := true }
+  | .disableFocus => { q with focus := false }
+  | .setTitle t => { q with title := t }
+  | _ => q
+
+def reqAfter (q : ModeReq) (ops : List MOp) : ModeReq := ops.foldl reqStep q
+
+theorem step_req (st : MState) (op : MOp) : (stepV v (mkCf ad rw payload corner a) st op).1.req = reqStep st.req op := by
+  cases op <;> simp only [stepV, reqStep]
+  case resume => unfold engage; split <;> rfl
+  case suspend => unfold disengageV; split <;> rfl
+  case fini =>
+    unfold finiV disengageV
+    split
+    · rfl
+    · split <;> rfl
+  case scr sop => cases sop <;> simp only [scrStep] <;> (try split) <;> rfl
+
+theorem exec_req : ∀ (ops : List MOp) (w : World),
+    (execAll ad v a rw payload corner w ops).st.req = reqAfter w.st.req ops := by
+  intro ops
+  induction ops with
+  | nil => intro w; rfl
+  | cons op l ih =>
+    intro w
+    show (execAll ad v a rw payload corner (execOp ad v a rw payload corner w op) l).st.req = _
+    rw [ih]
+    simp only [execOp, step_req, reqAfter, List.foldl_cons]
+
+/-- **C04, Resume re-applies.**  For every description, TCELL_ALTSCREEN setting and history `ops` after Init (no Resume after
+    Fini) that leaves the screen suspended, when `Resume` returns: each mouse mode, bracketed paste and focus reporting are on
+    **exactly** if the application's last request — wherever in the history it was made, also while suspended — enabled
+    them (and the description has the string), the alternate screen and keypad mode are entered again, the cursor is hidden
+    again, auto-margin is off again (where the description can), and a requested title is set again. -/
+theorem resume_reapplies (hp : Paired ad) (w h : Int) (t0 : Bytes) (s0 : List Bytes) (ops : List MOp)
+    (hwf : wfFrom false ops = true)
+    (hsusp : (execAll ad v a rw payload corner (world0 w h t0 s0) (.resume :: ops)).st.running = false) :
+    let r2 := (execAll ad v a rw payload corner (world0 w h t0 s0) (.resume :: (ops ++ [.resume]))).r
+    let q := reqAfter {} ops
+    r2.m1000 = (ad.mouse && decide (q.mouseFlags % 2 = 1)) ∧ r2.m1002 = (ad.mouse && decide (q.mouseFlags / 2 % 2 = 1)) ∧
+    r2.m1003 = (ad.mouse && decide (q.mouseFlags / 4 % 2 = 1)) ∧ r2.m1006 = (ad.mouse && decide (q.mouseFlags % 8 ≠ 0)) ∧
+    r2.paste = (q.paste && ad.pasteOn) ∧ r2.focus = (q.focus && ad.focusOn) ∧
+    r2.alt = (a && ad.enterCA) ∧ r2.keypad = ad.enterKeypad ∧ r2.cv = !ad.hideCursor ∧ r2.am = !ad.disableAM ∧
+    (q.title ≠ [] ∧ ad.setTitle = true → r2.title = q.title) := by
+  have h0 := world0_inv ad v a w h t0 s0
+  have k0 : K (world0 w h t0 s0).st := by simp [K, world0, Modes.fresh]
+  have hw : wfFrom (world0 w h t0 s0).st.finished (.resume :: ops) = true := by
+    simp [wfFrom, world0, Modes.fresh]; exact hwf
+  have e : execAll ad v a rw payload corner (world0 w h t0 s0) (.resume :: (ops ++ [.resume])) =
+      execOp ad v a rw payload corner (execAll ad v a rw payload corner (world0 w h t0 s0) (.resume :: ops)) .resume := by
+    rw [← execAll_append]; rfl
+  have hq := exec_req ad v a rw payload corner (.resume :: ops) (world0 w h t0 s0)
+  have hq' : reqAfter (world0 w h t0 s0).st.req (.resume :: ops) = reqAfter {} ops := rfl
+  rw [hq'] at hq
+  obtain ⟨i1, _⟩ := exec_inv ad v a rw payload corner hp s0 (.resume :: ops) _ h0 k0 hw
+  simp only
+  rw [e]
+  generalize execAll ad v a rw payload corner (world0 w h t0 s0) (.resume :: ops) = wd at i1 hsusp hq
+  have hi := i1.idle hsusp
+  simp only [execOp, stepV, engage, hsusp, Bool.false_eq_true, if_false, hq]
+  refine ⟨?_, ?_, ?_, ?_, ?_, ?_, ?_, ?_, ?_, ?_, ?_⟩
+  · proj_simp; simp; rw [hi.m1000, eng_m1000]
+  · proj_simp; simp; rw [hi.m1002, eng_m1002]
+  · proj_simp; simp; rw [hi.m1003, eng_m1003]
+  · proj_simp; simp; rw [hi.m1006, eng_m1006]; simp
+  · proj_simp; simp; rw [hi.paste, eng_paste]
+  · proj_simp; simp; rw [hi.focus, eng_focus]
+  · proj_simp; simp; rw [hi.alt, eng_alt]
+  · proj_simp; simp; rw [hi.keypad, eng_keypad]
+  · proj_simp; simp; rw [hi.cv, eng_cv]
+  · proj_simp; simp; rw [hi.am, eng_am]
+  · intro ht; proj_simp; simp; rw [eng_ttl]; simp [ht]
+
 end
 
 end Tcell.Props.C04
